@@ -1,2 +1,111 @@
-From Murex Require Import Check.C15.
-Example C15_stub_nonvacuous : True. Proof. exact I. Qed.
+(* C15 — Array streams round-trip and foreach visits each element once.
+   Only theorem statements here; proofs live in Proof/ArrayIO.v. *)
+From Murex Require Import Base.Outcome Base.Bytes Model.ByteStr Model.ArrayIO Check.C15 Proof.ByteStr Proof.ArrayIO.
+
+(* Writing a legal list with the type's ArrayWriter and reading the bytes back
+   delivers exactly that list, in order — any length, including the empty list. *)
+Theorem C15_array_roundtrip_str : forall xs,
+  forallb (legal_elem TStr) xs = true -> read_str (write_lines xs) = (xs, false).
+Proof. exact roundtrip_str. Qed.
+Print Assumptions C15_array_roundtrip_str.
+
+Theorem C15_array_roundtrip_generic : forall xs,
+  forallb (legal_elem TGeneric) xs = true -> read_generic (write_lines xs) = (xs, false).
+Proof. exact roundtrip_generic. Qed.
+Print Assumptions C15_array_roundtrip_generic.
+
+Theorem C15_array_roundtrip_jsonl : forall xs,
+  forallb (legal_elem TJsonl) xs = true -> read_jsonl (write_lines xs) = (xs, false).
+Proof. exact roundtrip_jsonl. Qed.
+Print Assumptions C15_array_roundtrip_jsonl.
+
+(* json: encoding/json's []string codec enters as two named hypotheses.  The
+   empty list is the documented exception of the writer: Close reports
+   "no data returned" (proc strict-arrays), writes nothing, and the empty stream
+   reads back as the empty list. *)
+Theorem C15_array_roundtrip_json :
+  forall (jenc : list bytes -> bytes) (jdec : bytes -> option (list bytes)),
+  (forall xs, jdec (jenc xs) = Some (map sanitize xs)) ->
+  (forall xs, xs <> [] -> crlf_trim (jenc xs) <> []) ->
+  forall xs, forallb valid_utf8 xs = true ->
+  read_json jdec (fst (write_json jenc xs)) = (xs, false) /\
+  snd (write_json jenc xs) = match xs with [] => true | _ => false end.
+Proof. exact roundtrip_json. Qed.
+Print Assumptions C15_array_roundtrip_json.
+
+(* the element-level json model evaluated by the check is that byte-level model *)
+Theorem C15_json_model_is_codec :
+  forall (jenc : list bytes -> bytes) (jdec : bytes -> option (list bytes)),
+  (forall xs, jdec (jenc xs) = Some (map sanitize xs)) ->
+  (forall xs, xs <> [] -> crlf_trim (jenc xs) <> []) ->
+  forall xs, roundtrip TJson xs =
+    Some (fst (read_json jdec (fst (write_json jenc xs))), snd (write_json jenc xs),
+          snd (read_json jdec (fst (write_json jenc xs)))).
+Proof. exact roundtrip_json_model. Qed.
+Print Assumptions C15_json_model_is_codec.
+
+(* all four types at once, as the function the check evaluates *)
+Theorem C15_roundtrip_legal : forall t xs, main_ty t ->
+  forallb (legal_elem t) xs = true ->
+  roundtrip t xs = Some (xs, match t, xs with TJson, [] => true | _, _ => false end, false).
+Proof. exact roundtrip_legal. Qed.
+Print Assumptions C15_roundtrip_legal.
+
+(* foreach runs its body once per element, in order, with the element bound
+   verbatim — for lists without an empty-string element (F15 below). *)
+Theorem C15_foreach_once_in_order : forall xs,
+  forallb text_elem xs = true -> foreach_bound xs = xs /\ foreach_seen xs = xs.
+Proof. exact foreach_once_in_order. Qed.
+Print Assumptions C15_foreach_once_in_order.
+
+(* F15 (known finding 1): the faithful model of forEachInnerLoop skips "" —
+   `%["x","","y"] -> foreach e {…}` runs the body twice. *)
+Theorem C15_foreach_refuted :
+  exists ob, model_obs TJson (map expand f15_in) = Some ob /\
+    spec_ok {| c_ty := TJson; c_in := f15_in; c_legal_other := true; c_docs := true; c_obs := ob |} = false /\
+    classify {| c_ty := TJson; c_in := f15_in; c_legal_other := true; c_docs := true; c_obs := ob |} = 1%N /\
+    length (o_each ob) = 2%nat.
+Proof. exact foreach_refuted. Qed.
+Print Assumptions C15_foreach_refuted.
+
+(* Headline: for every main type and every input list without an empty element
+   the model's observation satisfies the predicate the check evaluates on the
+   implementation's observations (round trip and foreach). *)
+Theorem C15_model_meets_spec : forall t cin docs,
+  main_ty t ->
+  let xs := map expand cin in
+  forallb nonempty xs = true ->
+  forall ob, model_obs t xs = Some ob ->
+  spec_ok {| c_ty := t; c_in := cin; c_legal_other := true; c_docs := docs; c_obs := ob |} = true.
+Proof. exact model_meets_spec. Qed.
+Print Assumptions C15_model_meets_spec.
+
+(* Every clause of the legal alphabets is necessary (one witness per clause). *)
+Theorem C15_legal_sharp :
+  rt_differs TStr [[97; 10; 98]]%N = true /\ rt_differs TGeneric [[97; 10; 98]]%N = true /\
+  rt_differs TJsonl [[97; 10; 98]]%N = true /\
+  rt_differs TStr [[32; 97]]%N = true /\ rt_differs TStr [[97; 9]]%N = true /\
+  rt_differs TJsonl [[194; 160; 97]]%N = true /\ rt_differs TJsonl [[97; 226; 128; 168]]%N = true /\
+  rt_differs TGeneric [[32; 97; 32]]%N = false /\
+  rt_differs TGeneric [[97; 13]]%N = true /\
+  rt_differs TStr [N.iter 65536 (cons 120%N) []] = true /\
+  rt_differs TGeneric [N.iter 65536 (cons 120%N) []] = true /\
+  rt_differs TStr [N.iter 65535 (cons 120%N) []] = false /\
+  rt_differs TJson [[97; 255]]%N = true.
+Proof. exact legal_sharp. Qed.
+Print Assumptions C15_legal_sharp.
+
+(* Non-vacuity: a legal, empty-free list exists for which the model produces an
+   observation, and spec_ok rejects wrong observations (an element dropped by
+   the reader; a body run twice for one element). *)
+Local Open Scope N_scope.
+Example C15_nonvacuous :
+  forallb (legal_elem TStr) [[97]; [98; 32; 99]] = true /\
+  (exists ob, model_obs TStr [[97]; [98; 32; 99]] = Some ob) /\
+  spec_ok {| c_ty := TStr; c_in := [[Lit [97]]; [Lit [98]]]; c_legal_other := true; c_docs := false;
+             c_obs := {| o_werr := false; o_read := [[Lit [97]]]; o_rerr := false; o_typed := true;
+                         o_each := [[Lit [97]]; [Lit [98]]] |} |} = false /\
+  spec_ok {| c_ty := TStr; c_in := [[Lit [97]]; [Lit [98]]]; c_legal_other := true; c_docs := false;
+             c_obs := {| o_werr := false; o_read := [[Lit [97]]; [Lit [98]]]; o_rerr := false; o_typed := true;
+                         o_each := [[Lit [97]]; [Lit [97]]; [Lit [98]]] |} |} = false.
+Proof. vm_compute. repeat split. eexists; reflexivity. Qed.
